@@ -52,6 +52,26 @@ Theorem C04_every_balance_executed : forall s t o v a,
 Proof. exact executed_balance. Qed.
 Print Assumptions C04_every_balance_executed.
 
+(* "The balance changes of sender, recipients, contracts and fee collector therefore sum to minus those burns":
+   in EVERY outcome the balance changes over any duplicate-free universe containing the accounts involved sum to the
+   change of the supply (which by C04_supply_step is minus the explicit burns).  Hypothesis = the interpreter's own
+   conservation (its movements net to minus what it destroyed), checked on every executed case by CorrTxPipe.oracle_consistent. *)
+Theorem C04_balances_sum_to_minus_burns : forall s t o l,
+  (e_vmerr o = false -> sum_moves (e_moves o) = - e_burn o) ->
+  NoDup l -> In (t_from t) l -> In FEE_COLLECTOR l -> (forall p, In p (e_moves o) -> In (fst p) l) ->
+  total l (bal (fst (deliver s t o))) - total l (bal s) = supply (fst (deliver s t o)) - supply s.
+Proof. exact balances_follow_supply. Qed.
+Print Assumptions C04_balances_sum_to_minus_burns.
+
+(* an account that is not the sender, not the fee collector and not named by the execution's movements keeps its
+   balance in every outcome: in particular the EVM module account, through which all credits and debits pass,
+   ends every transaction with the balance it had (zero) *)
+Theorem C04_untouched_account_keeps_balance : forall s t o a,
+  a <> t_from t -> a <> FEE_COLLECTOR -> (forall p, In p (e_moves o) -> fst p <> a) ->
+  bal (fst (deliver s t o)) a = bal s a.
+Proof. exact untouched_balance. Qed.
+Print Assumptions C04_untouched_account_keeps_balance.
+
 (* rejected / dropped: nothing at all changes *)
 Theorem C04_rejected_changes_nothing : forall s t o,
   passed (r_out (snd (deliver s t o))) = false -> fst (deliver s t o) = s.
@@ -67,4 +87,21 @@ Example C04_example :
   let s' := fst (deliver s t o) in
   r_out (snd (deliver s t o)) = Executed false /\ supply s' = supply s /\
   bal s' FEE_COLLECTOR = 21000 * 2000 /\ bal s' 7 = 10^18 - 21000 * 2000 - 5 /\ bal s' 8 = 5.
+Proof. vm_compute. repeat split; reflexivity. Qed.
+
+(* non-vacuity of the burn path: a contract (9, holding 40) self-destructs three times in one transaction with
+   beneficiary 8, receiving the transaction's 5 before the second time: 45 reach account 8 and nothing is destroyed;
+   a second transaction sends 7 to a contract that self-destructs naming itself: the 7 are destroyed and the supply
+   falls by exactly 7 *)
+Example C04_example_burn :
+  let s := mkSt (fun a => if a =? 7 then 10^18 else if a =? 9 then 40 else 0) (fun _ => 0) (fun a => a =? 7) (fun _ => false)
+                (5 * 10^18) 1000 0 0 0 0 0 0 false false in
+  let t1 := mkTx 7 (Some 7) true false 2000 0 0 600000 0 5 false 21000 in
+  let o1 := mkOut 90000 false 0 [(7, -5); (8, 45); (9, -40)] 0 false in
+  let t2 := mkTx 7 (Some 7) true false 2000 0 0 600000 1 7 false 21000 in
+  let o2 := mkOut 60000 false 0 [(7, -7)] 7 false in
+  let s1 := fst (deliver s t1 o1) in let s2 := fst (deliver s1 t2 o2) in
+  supply s1 = supply s /\ bal s1 8 = 45 /\ bal s1 9 = 0 /\ supply s2 = supply s - 7 /\
+  bal s2 7 = 10^18 - 150000 * 2000 - 12 /\
+  sum_moves (e_moves o1) = - e_burn o1 /\ sum_moves (e_moves o2) = - e_burn o2.
 Proof. vm_compute. repeat split; reflexivity. Qed.
